@@ -811,10 +811,11 @@ func (c *Client) handleChannelData(data []byte) error {
 
 func (c *Client) onRtxTimeout(trKey string, nRtx int) {
 	c.mutexTrMap.Lock()
-	defer c.mutexTrMap.Unlock()
 
 	tr, ok := c.trMap.Find(trKey)
 	if !ok {
+		c.mutexTrMap.Unlock()
+
 		return // Already gone
 	}
 
@@ -826,13 +827,25 @@ func (c *Client) onRtxTimeout(trKey string, nRtx int) {
 		}) {
 			c.log.Debug("No listener for transaction")
 		}
+		c.mutexTrMap.Unlock()
 
 		return
 	}
+	c.mutexTrMap.Unlock()
 
+	// The write may block (a stream transport whose window is shut). The read loop needs the
+	// table lock for every response: holding it here would stop the client reading while it
+	// waits to write, and a server that does the same on the other end then never lets go.
 	c.log.Tracef("Retransmitting transaction %s to %s (nRtx=%d)",
 		trKey, tr.To, nRtx)
 	_, err := c.conn.WriteTo(tr.Raw, tr.To)
+
+	c.mutexTrMap.Lock()
+	defer c.mutexTrMap.Unlock()
+
+	if cur, found := c.trMap.Find(trKey); !found || cur != tr {
+		return // Answered or closed while the write was in progress: it has its result
+	}
 	if err != nil {
 		c.trMap.Delete(trKey)
 		if !tr.WriteResult(client.TransactionResult{
